@@ -39,16 +39,44 @@ func (c *CFG) AssertionProved(ta *ast.TypeAssertExpr) (bool, string) {
 	type state struct {
 		facts map[string]bool
 		oks   map[types.Object]string
+		oneOf map[string]bool // when non-nil: the operand's type is one of these (the arm of a type switch listing several)
 	}
 	clone := func(s state) state {
-		n := state{map[string]bool{}, map[types.Object]string{}}
+		n := state{map[string]bool{}, map[types.Object]string{}, nil}
 		for k, v := range s.facts {
 			n.facts[k] = v
 		}
 		for k, v := range s.oks {
 			n.oks[k] = v
 		}
+		if s.oneOf != nil {
+			n.oneOf = map[string]bool{}
+			for k := range s.oneOf {
+				n.oneOf[k] = true
+			}
+		}
 		return n
+	}
+	// reduce: drop the alternatives known to have failed; a single one left is established. Reports false when no
+	// alternative is left (the path is infeasible).
+	reduce := func(s *state) bool {
+		if s.oneOf == nil {
+			return true
+		}
+		for k := range s.oneOf {
+			if v, known := s.facts[k]; known && !v {
+				delete(s.oneOf, k)
+			}
+		}
+		if len(s.oneOf) == 0 {
+			return false
+		}
+		if len(s.oneOf) == 1 {
+			for k := range s.oneOf {
+				s.facts[k] = true
+			}
+		}
+		return true
 	}
 	key := func(b *cfg.Block, s state) string {
 		var parts []string
@@ -61,6 +89,9 @@ func (c *CFG) AssertionProved(ta *ast.TypeAssertExpr) (bool, string) {
 		}
 		for o, k := range s.oks {
 			parts = append(parts, o.Name()+"@"+itoa(int(o.Pos()))+"="+k)
+		}
+		for k := range s.oneOf {
+			parts = append(parts, "|"+k)
 		}
 		sort.Strings(parts)
 		return itoa(int(b.Index)) + "|" + strings.Join(parts, ",")
@@ -88,9 +119,11 @@ func (c *CFG) AssertionProved(ta *ast.TypeAssertExpr) (bool, string) {
 				if SameExpr(info, l, ta.X) {
 					s.facts = map[string]bool{}
 					s.oks = map[types.Object]string{}
+					s.oneOf = nil
 				} else if id, ok := Unparen(l).(*ast.Ident); ok && rootObj != nil && ObjOf(info, id) == rootObj && as.Tok != token.DEFINE {
 					s.facts = map[string]bool{}
 					s.oks = map[types.Object]string{}
+					s.oneOf = nil
 				} else if o := ObjOf(info, l); o != nil {
 					delete(s.oks, o)
 				}
@@ -102,6 +135,53 @@ func (c *CFG) AssertionProved(ta *ast.TypeAssertExpr) (bool, string) {
 	witness := ""
 	var walk func(b *cfg.Block, from int, s state) bool
 	walk = func(b *cfg.Block, from int, s state) bool {
+		if from == 0 && b.Kind == cfg.KindSwitchCaseBody {
+			// the arm of a type switch over the same operand: its case list is what the operand is (the default arm:
+			// what it is not)
+			if cc, ok := b.Stmt.(*ast.CaseClause); ok {
+				if body, ok := c.Parent[cc].(*ast.BlockStmt); ok {
+					if ts, ok := c.Parent[body].(*ast.TypeSwitchStmt); ok {
+						var ta2 *ast.TypeAssertExpr
+						switch a := ts.Assign.(type) {
+						case *ast.ExprStmt:
+							ta2, _ = Unparen(a.X).(*ast.TypeAssertExpr)
+						case *ast.AssignStmt:
+							if len(a.Rhs) == 1 {
+								ta2, _ = Unparen(a.Rhs[0]).(*ast.TypeAssertExpr)
+							}
+						}
+						if ta2 != nil && SameExpr(info, ta2.X, ta.X) {
+							s = clone(s)
+							if cc.List == nil {
+								for _, other := range ts.Body.List {
+									for _, e := range other.(*ast.CaseClause).List {
+										if ct := info.TypeOf(e); ct != nil {
+											if v, known := s.facts[typeKey(ct)]; known && v {
+												return true // infeasible: the type is known, its arm would have been taken
+											}
+											s.facts[typeKey(ct)] = false
+										}
+									}
+								}
+							} else {
+								alts := map[string]bool{}
+								for _, e := range cc.List {
+									if ct := info.TypeOf(e); ct != nil {
+										alts[typeKey(ct)] = true
+									}
+								}
+								if len(alts) == len(cc.List) {
+									s.oneOf = alts
+								}
+							}
+							if !reduce(&s) {
+								return true // infeasible
+							}
+						}
+					}
+				}
+			}
+		}
 		if from == 0 {
 			k := key(b, s)
 			if seen[k] {
@@ -210,6 +290,9 @@ func (c *CFG) AssertionProved(ta *ast.TypeAssertExpr) (bool, string) {
 					for a, v := range asg {
 						ns.facts[a] = v
 					}
+					if !reduce(&ns) {
+						continue // no alternative of the enclosing type-switch arm is left: infeasible
+					}
 					v := eval(br.Cond, asg)
 					if v != 0 {
 						if !walk(br.True, 0, clone(ns)) {
@@ -232,7 +315,7 @@ func (c *CFG) AssertionProved(ta *ast.TypeAssertExpr) (bool, string) {
 		}
 		return true
 	}
-	ok = walk(c.Entry(), 0, state{map[string]bool{}, map[types.Object]string{}})
+	ok = walk(c.Entry(), 0, state{map[string]bool{}, map[types.Object]string{}, nil})
 	return ok, witness
 }
 
